@@ -503,9 +503,19 @@ def build_all(run, audit_file, translator=True):
     return os.path.join(bindir, "vp-raft")
 
 
+def run_batched(binpath, reqs, chunk=40, nproc=6, timeout=3600):
+    """Run harness requests in small batches (one vp-raft process each, `nproc` at a time) so that no single
+    process call comes near its timeout even on a loaded machine; answers in request order."""
+    import concurrent.futures
+    chunks = [reqs[i:i + chunk] for i in range(0, len(reqs), chunk)]
+    with concurrent.futures.ThreadPoolExecutor(max_workers=nproc) as ex:
+        outs = list(ex.map(lambda c: harness.run_jsonl(binpath, c, (), timeout), chunks))
+    return [a for o in outs for a in o]
+
+
 def model_eval(run, tag, exprs):
     try:
-        return coqtools.coq_eval(tag, IMPORTS, exprs, shard=max(30, min(120, len(exprs) // 8 + 1)))
+        return coqtools.coq_eval(tag, IMPORTS, exprs, shard=max(30, min(120, len(exprs) // 8 + 1)), timeout=3000)
     except RuntimeError as e:
         run.tie_broken("model evaluation (coqc cases)", str(e))
         return [None] * len(exprs)
